@@ -116,6 +116,16 @@ CHECKS = {
     design_ref="DESIGN.md section 4 / C09",
     technique="Coq proof over a fuelled model of pest's Pratt loop + operator table regenerated from source by a translator + structural correspondence on parsed texts",
     note="Trusted: Coq kernel + vm_compute; tools/srcparams.py; harness text printer. pest's PEG front end (tokenisation, whitespace) is not modelled."),
+ "C11": dict(
+    category="proof",
+    text="PARTIAL proof. Proved in Coq (axiom-free) for expression trees of any size: the text PreExp's printer emits (parenthesisation rule needs_parens over the operator table REGENERATED from exp_parser.rs) "
+         "is read back by the precedence-climbing parser with parenthesised primaries as exactly the original tree (parse(format e) = e), hence formatting is idempotent on expressions and never drops a parenthesis that changes grouping; "
+         "the parser with parentheses provably extends the C09 parser. Tie on every run: for all 81 (parent, child) operator pairs in both nestings, all prefix placements and seeded random trees, the tokens of RoocParser::format's output "
+         "must equal the model printer's and re-parse in the model to the tree. Whole-program clauses (blocks, iterations, declarations, names, constants; parses / idempotent / same compiled model) are evaluated on the implementation on "
+         "thousands of generated snippets and on every program literal in /repo. Genuine defects repaired: dropped parentheses (F5), `solve` objective, escaped leading-underscore names.",
+    design_ref="DESIGN.md section 4 / C11",
+    technique="Coq proof of parse-after-print over a model of printer and parser + operator table regenerated from source + token correspondence + whole-program oracle on the implementation",
+    note="Trusted: Coq kernel + vm_compute; tools/srcparams.py; harness tokeniser. Rendering of non-expression constructs is not modelled."),
  "C17": dict(
     category="proof",
     text="PARTIAL proof. to_lp_format is modelled at token level (lp_terms, lp_num, lp_bound, sections, generated row names) and an independently written reader of the CPLEX-LP subset lives in Coq. "
